@@ -8,7 +8,7 @@
     and input: no bound on sizes. *)
 From Coq Require Import List Arith ZArith NArith Bool Sorted Permutation.
 From RimeV Require Import Lookup.Defs Lookup.Model Lookup.Spec Lookup.MapProofs Lookup.QueryProofs Lookup.IterProofs
-     Lookup.LookupProofs Lookup.ScriptProofs Lookup.TableProofs Lookup.Examples.
+     Lookup.LookupProofs Lookup.ScriptProofs Lookup.TableProofs Lookup.Examples Lookup.Compose.
 Import ListNotations.
 
 (** * Table::Query returns, at every end position, exactly the index codes that label a path of the graph *)
@@ -201,6 +201,54 @@ Theorem C07_table_prefix_phrases_off_segmentation_witness :
   common_prefix f1_prism (skipn 1 f1_input) = [] /\ common_prefix f1_prism (skipn 2 f1_input) = [].
 Proof. exact table_prefix_phrases_off_segmentation. Qed.
 Print Assumptions C07_table_prefix_phrases_off_segmentation_witness.
+
+(** * composition with C08 (Dict/Syll.v): the graph BuildSyllableGraph hands over meets the hypotheses made above,
+    for every well-formed prism, delimiter set, flag combination and input ([cv] : any valuation of C08's symbolic
+    credibilities) *)
+Theorem C07_built_graph_wf : forall cv P delims comp strict inp g0,
+  SS.prism_wf P delims -> Sy.build_syllable_graph P delims comp strict inp = Some g0 ->
+  wf_graph (conv_graph cv g0).
+Proof. exact built_graph_wf. Qed.
+Print Assumptions C07_built_graph_wf.
+
+Theorem C07_built_graph_pruned : forall cv P delims comp strict inp g0,
+  SS.prism_wf P delims -> Sy.build_syllable_graph P delims comp strict inp = Some g0 ->
+  graph_pruned (conv_graph cv g0).
+Proof. exact built_graph_pruned. Qed.
+Print Assumptions C07_built_graph_pruned.
+
+(** paths of the converted graph are chains of C08's retained edges (each hop is then described by C08_edge_sound) *)
+Theorem C07_paths_are_edge_chains : forall cv P delims comp strict inp g0,
+  SS.prism_wf P delims -> Sy.build_syllable_graph P delims comp strict inp = Some g0 ->
+  forall s c e, gpath (conv_graph cv g0) s c e <-> epath g0 s c e.
+Proof. exact gpath_epath. Qed.
+Print Assumptions C07_paths_are_edge_chains.
+
+(** end to end over C08: for every prism, flags and input, the phrase candidates computed on the graph of
+    BuildSyllableGraph are exactly the table entries whose code is spelled from 0, and each lies on a complete
+    segmentation of the interpreted input *)
+Theorem C07_script_candidates_exact_end_to_end : forall cv P delims comp strict inp g0,
+  SS.prism_wf P delims -> Sy.build_syllable_graph P delims comp strict inp = Some g0 ->
+  forall t e c txt, wf_table t -> 0 < Sy.g_interpreted_length g0 ->
+  (In (mkCand TPhrase 0 e txt c) (script_phrases (lookup (conv_graph cv g0) t 0 false)) <->
+   (exists w, table_has t c (mkTE txt w) /\ spelled (conv_graph cv g0) c 0 e)) /\
+  (In (mkCand TPhrase 0 e txt c) (script_phrases (lookup (conv_graph cv g0) t 0 false)) ->
+   epath g0 0 c e /\ on_complete_segmentation (conv_graph cv g0) e).
+Proof. exact script_candidates_exact_over_built_graph. Qed.
+Print Assumptions C07_script_candidates_exact_end_to_end.
+
+(** ... and every table entry whose code is the syllable sequence of a prefix of a complete segmentation of the
+    tilable prefix by normal spellings is among the candidates of the script translator *)
+Theorem C07_script_contains_entries_on_normal_segmentations : forall cv P delims comp strict inp g0,
+  SS.prism_wf P delims -> Sy.build_syllable_graph P delims comp strict inp = Some g0 ->
+  forall (poet : wgraph -> nat -> option sentence) wordcompl mh t far l1 l2 te,
+  wf_table t -> Sy.forward_farthest P delims strict inp = Some far ->
+  SS.tiling P delims strict inp 0 far (l1 ++ l2) ->
+  Forall (fun x : nat * nat * Sy.desc => Sy.d_type (snd x) = Sy.kNormalSpelling) (l1 ++ l2) -> l1 <> [] ->
+  table_has t (map (fun x : nat * nat * Sy.desc => Sy.d_sid (snd x)) l1) te ->
+  exists k, In k (script_query poet wordcompl mh (conv_graph cv g0) t) /\ k_text k = te_text te.
+Proof. exact script_contains_entries_on_normal_segmentations. Qed.
+Print Assumptions C07_script_contains_entries_on_normal_segmentations.
 
 (** * non-vacuity *)
 Theorem C07_example_meets_hypotheses :
